@@ -1,6 +1,8 @@
 //! C10 — published length limits are enforced; permissive options only widen acceptance.
 
-use crate::checks::c01::{compositions, place_buckets, short_string, short_string_count, VALUE_ALPHABETS};
+#[cfg(fast_tlsh_verif)]
+use crate::checks::c01::{compositions, place_buckets, VALUE_ALPHABETS};
+use crate::checks::c01::{short_string, short_string_count};
 use crate::checks::common::*;
 use crate::refmodel::tables::{MAX_LEN, TOPVAL};
 use crate::refmodel::*;
@@ -254,6 +256,103 @@ pub fn run(r: &mut Report, ctx: &Ctx) {
                         Err(e) => acc.fail(idx, "lattice-short-inputs", e, json!({"kind": "input", "variant": VARIANT_NAMES[(idx % 5) as usize], "data": hex(&data)})),
                     }
                 });
+            },
+        );
+    }
+    if ctx.want("options-builder") {
+        r.section(
+            "options-builder-orders",
+            "the option object is itself a small state machine: for each of the 32 target settings the five setters are called in every one of the 120 orders, from three start states (fresh, every knob first set to the opposite value, every knob first set to true); on generator states of every kind (empty, too small, three-quarter-empty, half-empty, healthy, ValidWhenOptimistic length) finalize must give the same result as the canonically built options (a setting is determined by the last value given to each knob), hence the lattice law holds for every way of building the options; non-trivial = sequences that start from a non-fresh state",
+            "32 settings x 120 setter orders x 3 start states x 6 generator states x 5 variants",
+            true,
+            |s| {
+                // all permutations of 0..5
+                let mut perms: Vec<[usize; 5]> = Vec::new();
+                fn rec(cur: &mut Vec<usize>, perms: &mut Vec<[usize; 5]>) {
+                    if cur.len() == 5 {
+                        perms.push([cur[0], cur[1], cur[2], cur[3], cur[4]]);
+                        return;
+                    }
+                    for i in 0..5 {
+                        if !cur.contains(&i) {
+                            cur.push(i);
+                            rec(cur, perms);
+                            cur.pop();
+                        }
+                    }
+                }
+                rec(&mut Vec::new(), &mut perms);
+                let perms = &perms;
+                fn set(g: &mut tlsh::GeneratorOptions, knob: usize, v: bool) {
+                    match knob {
+                        0 => {
+                            g.length_processing_mode(if v { DataLengthProcessingMode::Conservative } else { DataLengthProcessingMode::Optimistic });
+                        }
+                        1 => {
+                            g.pure_integer_qratio_computation(v);
+                        }
+                        2 => {
+                            g.allow_small_size_files(v);
+                        }
+                        3 => {
+                            g.allow_statistically_weak_buckets_half(v);
+                        }
+                        _ => {
+                            g.allow_statistically_weak_buckets_quarter(v);
+                        }
+                    }
+                }
+                fn knob_values(o: &Opts) -> [bool; 5] {
+                    [o.conservative, o.pure_int, o.allow_small, o.allow_half, o.allow_quarter]
+                }
+                fn go<V: Variant>(perms: &[[usize; 5]], acc: &mut Acc, key: u64) {
+                    let inputs: Vec<Vec<u8>> = vec![
+                        vec![],
+                        b"Hello, World!".to_vec(),
+                        b"ABCDEABCDEABCDEABCDEABCDEABCDEABCDEABCDEABCDEABCDE".to_vec(),
+                        b"ABCDEFGHIJKLMNOPQRSTABCDEFGHIJKLMNOPQRSTABCDEFGHIJ".to_vec(),
+                        Stream::Mixed.bytes(0, 700),
+                        Stream::Mixed.bytes(0, 90),
+                    ];
+                    for (gi, data) in inputs.iter().enumerate() {
+                        let g = fresh_fed::<V>(data);
+                        for o in Opts::all() {
+                            let canonical = real_finalize::<V>(&g, &o);
+                            let target = knob_values(&o);
+                            for (pi, perm) in perms.iter().enumerate() {
+                                for start in 0..3usize {
+                                    let mut opts = tlsh::GeneratorOptions::new();
+                                    match start {
+                                        1 => (0..5).for_each(|k| set(&mut opts, k, !target[k])),
+                                        2 => (0..5).for_each(|k| set(&mut opts, k, true)),
+                                        _ => {}
+                                    }
+                                    for &k in perm {
+                                        set(&mut opts, k, target[k]);
+                                    }
+                                    acc.evals += 1;
+                                    acc.transitions += 6 + if start > 0 { 5 } else { 0 };
+                                    if start > 0 {
+                                        acc.nontrivial += 1;
+                                    }
+                                    let got: Outcome = match g.finalize_with_options(&opts) {
+                                        Ok(h) => Ok(V::to_bytes(&h)),
+                                        Err(e) => Err(map_gen_err(&e)),
+                                    };
+                                    if got != canonical {
+                                        acc.fail(key + (gi * 1_000_000 + o.index() * 1000 + pi * 3 + start) as u64, "options-builder-orders",
+                                            format!("{}: setting {} built by calling the setters in order {:?} from start state {start} gives finalize = {} but the canonically built options give {}", V::NAME, o.describe(), perm, outcome_str(&got), outcome_str(&canonical)),
+                                            json!({"kind": "builder", "variant": V::NAME, "input": hex(data), "setting": o.index(), "order": perm, "start": start}));
+                                        return;
+                                    }
+                                }
+                            }
+                            acc.outcomes.insert(outcomes_fp(std::slice::from_ref(&canonical)));
+                        }
+                    }
+                    acc.sample(key, || json!({"variant": V::NAME, "orders": perms.len(), "start_states": 3, "generator_states": 6}));
+                }
+                s.acc = par_for(5, 1, |idx, acc| with_variant!(idx, go(perms, acc, idx << 40)));
             },
         );
     }
